@@ -671,6 +671,21 @@ func (x *fx) backEdge(li *loopInfo, from *ssa.BasicBlock, pc string) {
 			o.Src, o.Line = cl.Src, cl.Line
 		}
 	}
+	// assert back=N: facts about the iteration that just ended (locals of the body are
+	// named as at the end of the block the back edge leaves)
+	for k, cl := range x.c.Asserts {
+		if cl.Kind == "assert:back$" && cl.Loop == li.ordinal && len(from.Instrs) > 0 {
+			if x.assertSeen == nil {
+				x.assertSeen = map[int]bool{}
+			}
+			x.assertSeen[k] = true
+			benv := x.instrEnv(from.Instrs[len(from.Instrs)-1])
+			g := x.evalBool(cl.E, benv)
+			if o := x.oblige("assert", fmt.Sprintf("back#%d:%s%s", li.ordinal, clauseLabel(cl, k), suffix), g, fmt.Sprintf("assertion at the end of an iteration of loop %d: %s", li.ordinal, cl.Src)); o != nil {
+				o.Src, o.Line = cl.Src, cl.Line
+			}
+		}
+	}
 	for i, cl := range x.clausesFor(x.c.Decreases, li.ordinal) {
 		m1 := x.toMath(x.eval(cl.E, env))
 		m0 := x.measures[li.header.Index][i]
